@@ -382,7 +382,7 @@ static void fp_case(double d, int is_float) {
         long double got = is_float ? (long double) R.f : (long double) R.d, v = d;
         long double diff = fabsl(got - v), u = unit_of(fabsl(v), is_float ? 6 : 15);
         long double ulp = is_float ? (long double) (nextafterf((float) fabs(d), INFINITY) - (float) fabs(d)) : (long double) (nextafter(fabs(d), INFINITY) - fabs(d));
-#if USE_CUSTOM_DTOSTRE
+#if VH_LIB_DTOSTRE
         /* the built-in formatter only promises one unit of the last requested digit (C16) */
         long double tol = 1.0L * u * (1 + 1e-12L) + ulp;
 #else
@@ -390,7 +390,7 @@ static void fp_case(double d, int is_float) {
 #endif
         if (!(diff <= tol)) {
             long double units = u > 0 ? diff / u : 0;
-#if USE_CUSTOM_DTOSTRE
+#if VH_LIB_DTOSTRE
             const char * key = (units <= 6.5L && !is_float) ? "C07:double-off-by-units-dtostre-accuracy" : (is_float ? "C07:float-outside-emitted-digits" : "C07:double-outside-emitted-digits");
 #else
             const char * key = is_float ? "C07:float-outside-emitted-digits" : "C07:double-outside-emitted-digits";
@@ -428,7 +428,7 @@ static void p6_run(uint64_t idx, vh_rng_t * rng) {
     if (vh_want_sample() && isfinite(d)) { char t[40]; SCPI_DoubleToStr(d, t, sizeof t); vh_sample("double %a -> \"%s\" -> ParamDouble within half a unit of the 15th digit", d, t); }
 }
 
-#if USE_CUSTOM_DTOSTRE
+#if VH_LIB_DTOSTRE
 #define FPTOL 1.0L
 #else
 #define FPTOL 0.5L
@@ -471,7 +471,7 @@ static void array_case(uint64_t idx, vh_rng_t * rng, size_t n) {
             int bad = 0;
             if (kind == K_AF) { float x, y; memcpy(&x, a + i * 4, 4); memcpy(&y, (char *) R.arr + i * 4, 4); bad = !(fabs((double) x - (double) y) <= FPTOL * (double) unit_of(fabsl(x), 6) * 1.000001 + fabs((double) x) * 1.2e-7); }
             else if (kind == K_AD) { double x, y; memcpy(&x, a + i * 8, 8); memcpy(&y, (char *) R.arr + i * 8, 8); bad = !(fabsl((long double) x - y) <= FPTOL * unit_of(fabsl(x), 15) * 1.000001L + fabsl(x) * 2.3e-16L);
-#if USE_CUSTOM_DTOSTRE
+#if VH_LIB_DTOSTRE
                 if (bad && fabsl((long double) x - y) <= 6.5L * unit_of(fabsl(x), 15)) { vh_violation("C07:double-off-by-units-dtostre-accuracy", "array element %a decoded as %a", x, y); bad = 0; }
 #endif
             }
